@@ -130,6 +130,13 @@ def convert_order(rep: Report, prog: Program) -> None:
                     mul_i = i
                 if is_add and o in nm and add_i is None:
                     add_i = i
+                    # one statement: magnitude = _add(_mul(magnitude, scale ** exponent), offset)
+                    ops_ = list(st.value.args) if isinstance(st.value, ast.Call) else [st.value.left, st.value.right]
+                    prod = [x for x in ops_ if ((isinstance(x, ast.Call) and ast.unparse(x.func) == "_mul") or
+                                                (isinstance(x, ast.BinOp) and isinstance(x.op, ast.Mult))) and s in names_in(x) and o not in names_in(x)]
+                    rest = [x for x in ops_ if x not in prod]
+                    if mul_i is None and len(ops_) == 2 and len(prod) == 1 and o in names_in(rest[0]) and s not in names_in(rest[0]):
+                        mul_i = i - 1
         rep.check("R10.3", "conversions.convert:hop", mul_i is not None and add_i is not None and mul_i < add_i,
                   "within a hop the magnitude must be multiplied by the scale and then shifted by the offset "
                   f"(found multiply at statement {mul_i}, add at {add_i})", fi.where(lp))
